@@ -230,6 +230,9 @@ fn run_case(c: &Case, known: &Known, via_env: bool) -> Verdict {
             Out::Fatal(1)
         } else if i <= c.script.len() {
             c.script[i - 1]
+        } else if a > 1_000 {
+            // a policy with (nearly) unlimited retries: the operation recovers when the script ends
+            Out::Ok
         } else {
             Out::Retryable(0)
         }
@@ -484,7 +487,7 @@ fn sampled_strategy() -> BoxedStrategy<Case> {
     let maxes: Vec<Duration> = MAXES.into_iter().chain([Duration::from_millis(50), Duration::from_secs(86_400 * 365)]).collect();
     let mults: Vec<&'static str> = MULTS.into_iter().chain(["1.5", "3", "inf", "-inf", "-0", "1e-30", "1.7976931348623157e308"]).collect();
     (
-        prop_oneof![1 => 0u32..=3, 5 => 4u32..=5],
+        prop_oneof![2 => 0u32..=3, 10 => 4u32..=5, 1 => proptest::sample::select(vec![u32::MAX, u32::MAX - 1, 1u32 << 31, 65_536])],
         prop_oneof![12 => proptest::sample::select(initials), 1 => proptest::sample::select(vec![Duration::from_secs(u64::MAX), Duration::MAX])],
         proptest::sample::select(maxes),
         proptest::sample::select(mults),
@@ -503,6 +506,9 @@ fn sampled_strategy() -> BoxedStrategy<Case> {
 }
 
 fn main() {
+    // Every tracing event of the library is formatted (and thrown away): the arguments of a log
+    // line are evaluated only when a subscriber listens, and an application always has one.
+    let _ = tracing_subscriber::fmt().with_max_level(tracing_subscriber::filter::LevelFilter::TRACE).with_writer(std::io::sink).try_init();
     let mut ck = Check::from_args("C14", "exploration");
     let tier = ck.tier;
     ck.extra(
@@ -513,6 +519,7 @@ fn main() {
             .into(),
     );
     ck.assume("tokio's paused clock: a sleep completes at its deadline rounded up to the next millisecond and never earlier (1 ms tolerance on upper bounds)");
+    ck.assume("a tracing subscriber at level TRACE is installed (output discarded), as in any application that logs: log arguments are evaluated");
     ck.assume("jitter comes from the library's own thread RNG: jittered delays are checked against bounds only, never against exact values");
     ck.assume(
         "CdnClient::download_with_retry runs RetryPolicy::default() (a grid point) through the same execute loop; its HTTP status mapping \
